@@ -37,10 +37,11 @@ class C12Machine(RuleBasedStateMachine):
 
     def __init__(self):
         super().__init__()
-        self.ex = wasifs.FsExecutor(npreopen=1)
+        self.ex = None
 
-    @initialize(mode=st.sampled_from([0, 0, 1, 2, 3, 5, 7]))
-    def edge(self, mode):
+    @initialize(mode=st.sampled_from([0, 0, 1, 2, 3, 5, 7]), variant=st.just('default'))
+    def start(self, mode, variant):
+        self.ex = wasifs.FsExecutor(npreopen=1, variant=variant)
         self.ex.set_edge(mode)
 
     @rule(target=fds, name=st.sampled_from(wasifs.FILE_NAMES), creat=st.booleans(), excl=st.booleans(), trunc=st.booleans(),
@@ -85,6 +86,8 @@ class C12Machine(RuleBasedStateMachine):
         self.ex.fd_close(fd)
 
     def teardown(self):
+        if self.ex is None:
+            return
         try:
             self.ex.final_check()
         finally:
